@@ -281,9 +281,34 @@ class DirtyState(Analysis):
                                 if isinstance(c, ast.Call) and last_attr(c) == 'append' \
                                         and norm(c.func.value) == it.id:
                                     src.add(self.params.index(node.iter.id))
+                        # ... or written as the comprehension / copy of a parameter list
+                        if isinstance(node, ast.Assign) and len(node.targets) == 1 \
+                                and norm(node.targets[0]) == it.id:
+                            src |= self._param_sources(node.value)
                     if src:
                         self.det_loops[tgt.id] = ('params', tuple(sorted(src)))
         return state
+
+    def _param_sources(self, val):
+        """Indices of the parameter lists whose elements make up the list value
+        ``val``: ``[d for d in p if c]``, ``list(p)``, ``p[:]``, ``sorted(p)``,
+        ``p + q``.  Empty when some element may come from elsewhere."""
+        if isinstance(val, ast.Name):
+            return {self.params.index(val.id)} if val.id in self.params else set()
+        if isinstance(val, (ast.ListComp, ast.GeneratorExp)):
+            if len(val.generators) == 1 and isinstance(val.generators[0].target, ast.Name) \
+                    and isinstance(val.elt, ast.Name) and val.elt.id == val.generators[0].target.id:
+                return self._param_sources(val.generators[0].iter)
+            return set()
+        if isinstance(val, ast.Call) and call_name(val) in ('list', 'sorted', 'tuple', 'reversed') \
+                and len(val.args) == 1:
+            return self._param_sources(val.args[0])
+        if isinstance(val, ast.Subscript) and isinstance(val.slice, ast.Slice):
+            return self._param_sources(val.value)
+        if isinstance(val, ast.BinOp) and isinstance(val.op, ast.Add):
+            a, b = self._param_sources(val.left), self._param_sources(val.right)
+            return a | b if a and b else set()
+        return set()
 
     def run_stmt(self, stmt, state):
         if isinstance(stmt, ast.For) and self._is_clean_all_loop(stmt):
